@@ -42,7 +42,7 @@ BOUNDS = ("part B: every ordered subset (no repetition) of <= 2 (quick) / <= 3 (
           "per sequence the FREE feature bits are a sub-universe computed at run time: the features the chained compilers' resulting_problem_kind "
           "reads or writes (found by probing the real functions) and one representative per distinct support column of the candidate compilers, "
           "capped at 4 bits (quick) / 6 bits (thorough); the remaining features are fixed absent (background 0) or, for five that every candidate "
-          "supports plus the deprecated ones, fixed present (background 1); default and reversed preference list")
+          "supports plus the deprecated ones, fixed present (background 1; quick: only in the reversed-preference and version-2 shards); default and reversed preference list")
 OUTSIDE = ("kinds that differ from the explored ones on features outside the freed sub-universe (Factory._get_engine_class iterates "
            "problem_kind.features for its error table, which forks once per undecided bit: all bits free is infeasible); sequences longer than 3; "
            "third-party engines (not installed)")
@@ -161,7 +161,7 @@ def check_pipeline(ctx, f, K, seq, tag=""):
     return pipe
 
 
-def h_pipeline(ctx, registry, version, max_len, cap, first=None, firsts=None, rev_pref=False):
+def h_pipeline(ctx, registry, version, max_len, cap, first=None, firsts=None, rev_pref=False, backgrounds=2):
     """first: name of the first compilation kind (None: `firsts` list by choice, or the empty sequence)."""
     from unified_planning.engines.mixins.compiler import CompilationKind
     from vf import kindlib
@@ -183,7 +183,7 @@ def h_pipeline(ctx, registry, version, max_len, cap, first=None, firsts=None, re
         seq.append(nxt)
     if rev_pref:
         f.preference_list = list(reversed(f.preference_list))
-    bg = ctx.choice("background", 2)
+    bg = ctx.choice("background", backgrounds)
     with ctx.untraced():
         free, present = pipeline_free_bits(f, list(f.preference_list), seq, version, cap)
     ctx.note("sequence", [k.name for k in seq])
@@ -205,14 +205,16 @@ def shards(tier, seed):
     without = [k.name for k in CompilationKind if k.name not in with_compiler]
     if tier == "quick":
         for first in with_compiler:
-            out.append(dict(name=f"B-pipe2-{first}", fn="h_pipeline", kwargs=dict(registry="builtin", version=3, max_len=2, cap=4, first=first),
+            out.append(dict(name=f"B-pipe2-{first}", fn="h_pipeline", kwargs=dict(registry="builtin", version=3, max_len=2, cap=4, first=first, backgrounds=1),
                             budget=150, per_path=30))
         out.append(dict(name="B-pipe2-first-without-compiler", fn="h_pipeline",
-                        kwargs=dict(registry="builtin", version=3, max_len=2, cap=2, firsts=without), budget=150, per_path=30))
+                        kwargs=dict(registry="builtin", version=3, max_len=2, cap=2, firsts=without, backgrounds=1), budget=150, per_path=30))
         out.append(dict(name="B-pipe0-empty", fn="h_pipeline", kwargs=dict(registry="builtin", version=3, max_len=0, cap=3), budget=60, per_path=30))
         out.append(dict(name="B-pipe2-revpref-CONDITIONAL_EFFECTS_REMOVING", fn="h_pipeline",
                         kwargs=dict(registry="builtin", version=3, max_len=2, cap=4, first="CONDITIONAL_EFFECTS_REMOVING", rev_pref=True),
                         budget=150, per_path=30))
+        out.append(dict(name="B-pipe2-ext-MA_CENTRALIZATION", fn="h_pipeline",
+                        kwargs=dict(registry="ext", version=3, max_len=2, cap=3, first="MA_CENTRALIZATION", backgrounds=1), budget=150, per_path=30))
         out.append(dict(name="B-pipe2-v2-USERTYPE_FLUENTS_REMOVING", fn="h_pipeline",
                         kwargs=dict(registry="builtin", version=2, max_len=2, cap=4, first="USERTYPE_FLUENTS_REMOVING"), budget=150, per_path=30))
     else:
